@@ -74,6 +74,9 @@ var vC03Faults = []vFault{
 	{"annotated-path", "GET /ap/{x}\n  Path // note\n  {\"x\": 1}\n  200 any\n", "Path", jerr.AnnotationIsForbiddenForTheDirective, "", 3},
 	{"annotated-protocol", "URL /apr\n  Protocol json-rpc-2.0 // note\n  Method m\n    Params\n    {}\n", "Protocol", jerr.AnnotationIsForbiddenForTheDirective, "", 3},
 	{"annotated-params", "URL /apa\n  Protocol json-rpc-2.0\n  Method m\n    Params // note\n    {}\n", "Params", jerr.AnnotationIsForbiddenForTheDirective, "", 3},
+	{"double-open-paren", "URL /dp\n(\n  (\n  GET\n    200 any\n)\n", "  (", jerr.NoDirectiveForLexeme, "", 3},
+	{"double-open-paren-body", "TYPE @dp\n(\n  (\n{}\n)\n", "  (", jerr.NoDirectiveForLexeme, "", 3},
+	{"double-open-paren-closed-twice", "GET /dp2\n(\n  (\n  200 any\n  )\n)\n", "  (", jerr.NoDirectiveForLexeme, "", 3},
 	{"annotated-result", "URL /are\n  Protocol json-rpc-2.0\n  Method m\n    Result // note\n    {}\n", "Result", jerr.AnnotationIsForbiddenForTheDirective, "", 3},
 	{"annotated-info", "INFO // note\n  Title \"x\"\n", "INFO", jerr.AnnotationIsForbiddenForTheDirective, "", 0},
 	{"annotated-macro", "MACRO @am // note\n(\n  404 any\n)\n", "MACRO @am", jerr.AnnotationIsForbiddenForTheDirective, "", 1},
